@@ -461,6 +461,10 @@ def run(ctx) -> None:
                 elif e.kind == "cond" and re.fullmatch(r"self\._is_\w+", e.text):
                     if held > 0:
                         tested_in_section.add(e.text.split(".")[1])
+                elif e.kind in ("assign", "freeze") and held > 0 and re.fullmatch(r"\w+'? = self\._is_\w+", e.text):
+                    # the old value read into a local inside the section (`old = flag; flag = True; return not old`): the decision
+                    # taken on that local later is the test, made atomically with the set
+                    tested_in_section.add(e.text.split("self.")[1])
                 elif e.kind == "store" and e.extra.get("value") == "True" and re.fullmatch(r"_is_\w+_stopping", e.extra.get("attr", "")):
                     found = True
                     if held <= 0 or e.extra["attr"] not in tested_in_section:
@@ -549,6 +553,12 @@ def run(ctx) -> None:
     for p in sps:
         c = p.conds()
         if c.get("self._is_trick_stopping") is True:
+            continue
+        # ... or the same decision taken on the old value read under the lock (`was = flag; flag = True`, then `if was: return`)
+        from ..pse import snapshot_names as _sn
+
+        snaps_ = _sn(p.evs)
+        if any(t is True and snaps_.get(a) == "self._is_trick_stopping" for a, t in c.items()):
             continue
         nfull += 1
         fs = [e.extra.get("func") for e in p.evs if e.kind == "call"]
